@@ -228,6 +228,7 @@ const (
 )
 
 type stepRes struct {
+	msg   string // panic / error text (diagnostics only)
 	cls   Class
 	outs  []*big.Int // operation outputs compared with the model
 	mintO *big.Int   // oracle values (Block)
@@ -242,10 +243,14 @@ func (w *world) exec(o op) stepRes {
 		fp := w.tApp.GetDistrKeeper().GetFeePoolCommunityCoins(w.ctx).AmountOf("ukava").TruncateInt().BigInt()
 		res.consO = fp
 		ctx := NewCtx(w.tApp, w.height+1, tm(o.T))
-		res.cls, _ = Atomically(ctx, func(c sdk.Context) error {
+		var e error
+		res.cls, e = Atomically(ctx, func(c sdk.Context) error {
 			w.tApp.BeginBlocker(c, abci.RequestBeginBlock{})
 			return nil
 		})
+		if e != nil {
+			res.msg = e.Error()
+		}
 		if res.cls == ClassOk {
 			w.height++
 			w.ctx = ctx
@@ -300,7 +305,13 @@ func (w *world) exec(o op) stepRes {
 	case "kdmint", "kdinfra":
 		before := w.tApp.GetBankKeeper().GetSupply(w.ctx, "ukava").Amount.BigInt()
 		kk := w.tApp.GetKavadistKeeper()
-		res.cls, _ = Atomically(w.ctx, func(c sdk.Context) error {
+		var e error
+		defer func() {
+			if e != nil {
+				res.msg = e.Error()
+			}
+		}()
+		res.cls, e = Atomically(w.ctx, func(c sdk.Context) error {
 			c = c.WithBlockTime(tm(o.T))
 			if o.Kind == "kdmint" {
 				return kk.VerifMintIncentivePeriods(c, periods(o.Ps), tm(o.Prev))
@@ -362,15 +373,22 @@ func kdAllowed(ps []per, prev, now int64, supply *big.Int) (total *big.Int, ok b
 // kdSplits classifies each period of a call, independently of the model.
 func kdSplits(ps []per, prev, now int64, mark func(string)) (unstarted bool) {
 	for _, p := range ps {
+		zero := func(from, to int64) {
+			if unixOf(to) == unixOf(from) || bi(p.Infl).Cmp(prec) == 0 {
+				mark("kd:period-mints-zero-coins")
+			}
+		}
 		switch {
 		case p.End < prev:
 			mark("kd:case1-expired")
 		case p.End > prev && p.End <= now:
 			if p.Start <= prev {
 				mark("kd:case2-ended-started-before-prev")
+				zero(prev, p.End)
 			} else {
 				mark("kd:case2-ended-started-after-prev")
 				unstarted = true
+				zero(p.Start, p.End)
 			}
 			if p.End == now {
 				mark("kd:case2-end-equals-now")
@@ -378,6 +396,7 @@ func kdSplits(ps []per, prev, now int64, mark func(string)) (unstarted bool) {
 			prev = p.End
 		case p.Start <= prev && p.End > now:
 			mark("kd:case3-ongoing")
+			zero(prev, now)
 			if p.Start == prev {
 				mark("kd:case3-start-equals-prev")
 			}
@@ -412,6 +431,9 @@ func monitorBlock(w *world, ms *monState, c cfg, o op, r stepRes, before, after 
 			}
 		}
 		mark("block:panicked")
+		if nonDeflationary(kdPs) && nonDeflationary(kdInfra) {
+			return []*failure{{"begin-block-does-not-panic-on-valid-schedule", "begin-block-panicked-on-valid-schedule", fmt.Sprintf("t=%d prev=%s periods %s infra %s: %s", o.T, before[iKdPrev], MustJSON(kdPs), MustJSON(kdInfra), r.msg)}}
+		}
 		return nil
 	}
 	t := o.T
@@ -639,9 +661,21 @@ func monitorCalc(o op, r stepRes, mark func(string)) *failure {
 	return nil
 }
 
+func nonDeflationary(ps []per) bool {
+	for _, p := range ps {
+		if bi(p.Infl).Cmp(prec) < 0 || p.End < p.Start {
+			return false
+		}
+	}
+	return true
+}
+
 func monitorKd(w *world, o op, r stepRes, supplyBefore *big.Int, mark func(string)) *failure {
 	if r.cls != ClassOk {
 		mark("kddirect:panicked")
+		if nonDeflationary(o.Ps) && o.Prev <= o.T {
+			return &failure{"minting-does-not-panic-on-valid-schedule", "kavadist-panicked-on-valid-schedule", fmt.Sprintf("direct %s prev=%d now=%d periods %s: %s", o.Kind, o.Prev, o.T, MustJSON(o.Ps), r.msg)}
+		}
 		return nil
 	}
 	if o.Prev > o.T {
@@ -940,6 +974,12 @@ func directed(idx int) (cfg, []op, bool) {
 		c := base
 		c.Infra = []per{{t0ns, t0ns + 10*ns, "1000000003022265980"}, {t0ns + 10*ns, t0ns + 20*ns, "1000000006000000000"}, {t0ns + 5*day, t0ns + 5*day + 3600*ns, "1000000003022265980"}}
 		return c, []op{{Kind: "block", T: t0ns + 10*ns}, {Kind: "block", T: t0ns + 25*ns}, {Kind: "block", T: t0ns + 10*day}}, true
+	case 4: // periods that mint zero coins: two blocks in the same Unix second, inflation 1.0, on both lists
+		c := base
+		c.Periods = []per{{t0ns - day, t0ns + 50*ns, "1000000003022265980"}, {t0ns + 50*ns, t0ns + 300*day, prec.String()}}
+		c.Infra = []per{{t0ns - day, t0ns + 50*ns + 5, "1000000003022265980"}, {t0ns + 50*ns + 5, t0ns + 300*day, prec.String()}}
+		return c, []op{{Kind: "block", T: t0ns + 300_000_000}, {Kind: "block", T: t0ns + 900_000_000}, {Kind: "block", T: t0ns + 50*ns + 2},
+			{Kind: "block", T: t0ns + 50*ns + 7}, {Kind: "block", T: t0ns + 60*ns}, {Kind: "kdinfra", T: t0ns + 60*ns + 10, Prev: t0ns + 60*ns, Ps: c.Infra}}, true
 	}
 	return cfg{}, nil, false
 }
@@ -1068,7 +1108,7 @@ var allSplits = []string{
 	"pay:paid", "pay:nothing-whole-yet", "pay:capped-by-pool", "pay:quoint-drops-dust", "pay:zero-gap", "pay:shortfall-reaches-one-unit",
 	"switch:fired", "switch:block-exactly-at-upgrade-time", "switch:block-1ns-before-upgrade-time", "switch:armed-not-due", "switch:already-fired", "switch:never-armed",
 	"kd:inactive", "kd:prev-not-found", "kd:case1-expired", "kd:case2-ended-started-before-prev", "kd:case2-ended-started-after-prev", "kd:case2-end-equals-now",
-	"kd:case3-ongoing", "kd:case3-start-equals-prev", "kd:case4-not-started", "kd:case4-start-equals-now", "kd:no-case-started-inside-block",
+	"kd:case3-ongoing", "kd:case3-start-equals-prev", "kd:case4-not-started", "kd:case4-start-equals-now", "kd:no-case-started-inside-block", "kd:period-mints-zero-coins",
 	"calc:capped", "calc:not-capped", "calc:cap-boundary", "calc:quoint-drops-dust", "kddirect:panicked", "block:panicked", "adj:refused",
 }
 
